@@ -241,3 +241,49 @@ Definition chk_c12 (k : N) (ic : list icall) : list clause :=
 (** ** generic *)
 Definition chk_stray (es : list effect) : list clause :=
   flat_map (fun e => match e with EStray _ n => [ClStray n] | _ => [] end) es.
+
+(** ** C06: a partial update programs exactly the requested window and fills it once *)
+Definition window_geometry (P : pspec) (x y w h : N) (e : effect) : list clause :=
+  let x0 := x / 8 in let x1 := (x + w) / 8 - 1 in let y0 := y in let y1 := y + h - 1 in
+  match e with
+  | EBurstSsd c _ g _ =>
+      (if g_entry g =? 3 then [] else [ClWindow 0]) ++
+      (if g_xs g =? x0 then [] else [ClWindow 1]) ++ (if g_xe g =? x1 then [] else [ClWindow 2]) ++
+      (if g_ys g =? y0 then [] else [ClWindow 3]) ++ (if g_ye g =? y1 then [] else [ClWindow 4]) ++
+      (if g_xc g =? x0 then [] else [ClWindow 5]) ++ (if g_yc g =? y0 then [] else [ClWindow 6])
+  | EBurstUc c _ a _ =>
+      (if a_partial a then [] else [ClWindow 0]) ++
+      (if a_x0 a =? x0 then [] else [ClWindow 1]) ++ (if a_x1 a =? x1 then [] else [ClWindow 2]) ++
+      (if a_y0 a =? y0 then [] else [ClWindow 3]) ++ (if a_y1 a =? y1 then [] else [ClWindow 4])
+  | _ => []
+  end.
+
+Definition chk_c06 (P : pspec) (sm : sem) (k : N) (has_buf : bool) (len x y w h : N) (es : list effect) : list clause :=
+  let bs := filter (fun e => match burst_cmd e with Some _ => true | None => false end) es in
+  (match bs with [] => [ClNoBurst 0] | _ => [] end) ++
+  flat_map (fun b =>
+    match burst_cmd b with
+    | None => []
+    | Some c =>
+        window_geometry P x y w h b ++
+        (let want := (w / 8) * h * (rowbytes P c / cp_rowbytes (ps_cp P)) in
+         if segslen (burst_segs b) =? want then [] else [ClLength c (segslen (burst_segs b))])
+    end) bs ++
+  (if has_buf then
+     if existsb (fun b => existsb (fun g => sm_eq sm (burst_segs b)
+                                              (expected_segs k (mkTarget 0 0 g 0 len))) [BId; BNot; BExp2; BExp4]) bs
+     then [] else [ClPayload 0]
+   else flat_map (fun b => match sm_uniform sm (burst_segs b) with
+                           | Some _ => []
+                           | None => match burst_cmd b with Some c => [ClNotUniform c] | None => [] end
+                           end) bs) ++
+  chk_stray es ++
+  flat_map (fun e => match e with EPattern c _ _ _ => [ClOtherPlane c] | _ => [] end) es.
+
+(** ** C11: every hardware reset of a call has a non-zero low time and a non-zero preceding high time *)
+Definition chk_resets (ic : list icall) : list clause :=
+  flat_map (fun i => match i with IReset a b => if (0 <? a) && (0 <? b) then [] else [ClResetTiming] | _ => [] end) ic.
+
+(** ** C17: the waveform tables a call uploads *)
+Definition luts_of (es : list effect) : list (N * list N) :=
+  flat_map (fun e => match e with ELut c bytes => [(c, bytes)] | _ => [] end) es.
